@@ -284,8 +284,14 @@ func H_C12_verify() {
 		return nnSimple(22, 0)
 	}
 	var pp, up []*vNodeT
-	// alg so that Verify can proceed
-	pp = append(pp, nnInt(0, 1, -1), nnInt(1, 6, -1))
+	// alg so that Verify can proceed; absent or another algorithm: no message may come back
+	algKind := vChoose("alg", 3)
+	switch algKind {
+	case 0:
+		pp = append(pp, nnInt(0, 1, -1), nnInt(1, 6, -1))
+	case 2:
+		pp = append(pp, nnInt(0, 1, -1), nnInt(1, 36, -1))
+	}
 	type placed struct {
 		label uint64
 		node  *vNodeT
@@ -323,6 +329,7 @@ func H_C12_verify() {
 		return
 	}
 	vAssert("verify: a message is returned only if the signature verified", !sv.fail && sv.calls == 1)
+	vAssert("verify: a message is returned only under the verifier's own algorithm", algKind == 0)
 	var hashAlg int64
 	has258 := false
 	for _, p := range placedL {
